@@ -1452,6 +1452,11 @@ impl HashColumn {
 					}
 					// Re-launch previously started reindex
 					// TODO: add explicit log records for reindexing events.
+					if record.table.index_bits() != tables.index.id.index_bits() + 1 {
+						// The record is not verified yet (its checksum comes last): only the
+						// next generation can legitimately be missing.
+						return Err(Error::Corruption("Unexpected log index id".to_string()))
+					}
 					log::warn!(
 						target: "parity-db",
 						"Missing table {}, starting reindex",
@@ -1466,6 +1471,10 @@ impl HashColumn {
 				tables.value[record.table.size_tier() as usize].validate_plan(record.index, log)?;
 			},
 			LogAction::InsertRefCount(record) => {
+				if tables.ref_count.is_none() {
+					// Only a damaged record can address a table this column does not have.
+					return Err(Error::Corruption("Unexpected log ref count action".to_string()))
+				}
 				if tables.get_ref_count().id == record.table {
 					tables.get_ref_count().validate_plan(record.index, log)?;
 				} else if let Some(table) = reindex
@@ -1484,6 +1493,9 @@ impl HashColumn {
 					}
 					// Re-launch previously started reindex
 					// TODO: add explicit log records for reindexing events.
+					if record.table.index_bits() != tables.get_ref_count().id.index_bits() + 1 {
+						return Err(Error::Corruption("Unexpected log ref count id".to_string()))
+					}
 					log::warn!(
 						target: "parity-db",
 						"Missing ref count {}, starting reindex",
